@@ -83,6 +83,24 @@ def run(chk, prog, tier):
                     "asm_create_instance stores DEFAULT into the option field",
                     "stores %s" % (expr_str(par) if par else a.text))
 
+    # ... on every path that returns an instance (not only in one branch of the buffer test)
+    from checks import C15
+    from valib.flow import Flow
+    inst = None
+    for m in walk(prog.body(create)):
+        if m.get("kind") == "VarDecl" and "assemblyline" in (m.get("type", {}).get("qualType", "")):
+            inst = m["name"]
+            break
+    if inst is not None:
+        idom = C15.InitDomain(inst, prog)
+        Flow(idom).function(prog, create, frozenset())
+        for n, st in idom.rets:
+            v = ConstEval(prog).try_eval(strip(kids(n)[0], casts=True)) if kids(n) else None
+            if v == 0:
+                continue
+            chk.require(FIELD in st, "INIT", "INIT/create/all-paths@%s" % loc_str(n), loc_str(n),
+                        "every path of asm_create_instance that returns an instance has stored the option field", "assigned on this path: %s" % sorted(st))
+
     # ---- transfer functions -------------------------------------------------
     si = SetterInterp(prog)
     setters = list(con["setters"])
